@@ -83,6 +83,18 @@ example : (runReset resetSteps [.other, .cancelSpa, .awaitHandler, .other, .drop
     (runReset resetSteps [.other, .cancelSpa, .awaitHandler, .other, .dropProtocol, .closeTransport, .unwatch]
                      facadeDisconnectSteps .spaTask true).completed = false := by decide
 
+/-- **a context exit during discovery closes the discovery endpoint and cancels its helper tasks, whether or not the
+client's exit handler suspends** (i.e. even when `gather()`'s second cancellation arrives while the `finally` block of
+`discover()` is running): the generated `finally` block contains no await before its close -/
+theorem discover_finally_survives_second_cancel : ∀ secondCancel : Bool,
+    (runDiscoverFinally discoverFinallySteps secondCancel).closed = true ∧
+    (runDiscoverFinally discoverFinallySteps secondCancel).locCancelled = true := by decide
+
+/-- non-vacuity: one awaited sleep between the two statements (a one-line edit) loses the endpoint when the second
+cancellation arrives, and only then -/
+example : (runDiscoverFinally [.other, .cancelLoc, .awaitOther, .closeTransport, .other, .other] true).closed = false ∧
+    (runDiscoverFinally [.other, .cancelLoc, .awaitOther, .closeTransport, .other, .other] false).closed = true := by decide
+
 /-- non-vacuity: the table covers discovery, the handshake and steady state, and contains both endpoint-creation windows -/
 example : (crashPoints.map (·.proc)).eraseDups = ["discover", "_connect", "pump-idle", "pump-connected"] ∧
     (crashPoints.filter (·.endpoint == .pending)).length = 2 ∧ crashPoints.length ≥ 20 := by decide
